@@ -173,6 +173,18 @@ pub struct SimSocket {
     /// explicit read sizes (cycled); overrides `chunk` when non-empty
     plan: Vec<usize>,
     plan_idx: usize,
+    /// dropping the socket closes the connection in both directions (what the operating system does); opt-in because the
+    /// engines that script connects and disconnects themselves close their channels explicitly
+    close_on_drop: bool,
+}
+
+impl Drop for SimSocket {
+    fn drop(&mut self) {
+        if self.close_on_drop {
+            chan_close(&self.outbox, CloseKind::Eof);
+            chan_close(&self.inbox, CloseKind::Eof);
+        }
+    }
 }
 
 impl SimSocket {
@@ -187,7 +199,13 @@ impl SimSocket {
             name,
             plan: Vec::new(),
             plan_idx: 0,
+            close_on_drop: false,
         }
+    }
+
+    pub fn closing_on_drop(mut self) -> Self {
+        self.close_on_drop = true;
+        self
     }
 
     pub fn with_plan(mut self, plan: Vec<usize>) -> Self {
